@@ -284,9 +284,16 @@ type tapRecord struct {
 	nframes int
 }
 
+type tapFrame struct {
+	conn int
+	head []byte // first bytes of the frame
+	n    int
+}
+
 type wireTap struct {
-	mu    sync.Mutex
-	recs  []tapRecord
+	mu     sync.Mutex
+	recs   []tapRecord
+	frames []tapFrame // every frame handed to a decoder, in order
 	conns int
 	inner parser.Creator
 }
@@ -323,6 +330,13 @@ func (p *tapParser) Encode(h *parser.PacketHeader, v any) ([][]byte, error) { re
 func (p *tapParser) Reset()                                                { p.inner.Reset(); p.nframes = 0 }
 func (p *tapParser) Add(data []byte, finish parser.Finish) error {
 	p.nframes++
+	hd := data
+	if len(hd) > 64 {
+		hd = hd[:64]
+	}
+	p.w.mu.Lock()
+	p.w.frames = append(p.w.frames, tapFrame{conn: p.conn, head: append([]byte(nil), hd...), n: len(data)})
+	p.w.mu.Unlock()
 	if p.nframes == 1 {
 		p.hdr = append([]byte(nil), data...)
 		if len(p.hdr) > 160 {
